@@ -16,6 +16,7 @@ import (
 	"time"
 
 	"simlens/plan"
+	"simlens/simrt"
 
 	"github.com/siglens/siglens/cmd/startup"
 	"github.com/siglens/siglens/pkg/ast/pipesearch"
@@ -132,12 +133,10 @@ func IngestBulk(org int64, body []byte) (int, map[string]interface{}, error) {
 	return eswriter.HandleBulkBody(body, nil, 0, org, false)
 }
 
-// Flush forces every open WIP buffer to its segment file (the same function both flush timers call,
-// with zero durations so that every non-empty buffer qualifies).
+// Flush forces every open WIP buffer to its segment file: the function both flush timers call, with a
+// negative idle duration so that every non-empty buffer qualifies whatever its last update time.
 func Flush() {
-	// lastUpdated/lastWipFlushTime must be strictly older than "now - 0"
-	time.Sleep(time.Millisecond)
-	d := time.Duration(0)
+	d := -time.Hour
 	writer.FlushWipBufferToFile(&d, nil)
 }
 
@@ -147,7 +146,7 @@ func Rotate() {
 }
 
 // Advance lets simulated time pass; every background loop due in the window runs.
-func Advance(d time.Duration) { time.Sleep(d) }
+func Advance(d time.Duration) { simrt.Sleep(d) }
 
 // QueryResult is what the journal records for a log query.
 type QueryResult struct {
